@@ -1,0 +1,38 @@
+//go:build verif
+
+package core
+
+// Contracts for moving staged files into the root (property C10): the file
+// that replaces or creates root content is the one the provider names for the
+// planned path and the planned digest, and a staged file that turns out not to
+// exist is reported through providerMissingFiles. Comment-only file: compiled
+// only under the "verif" build tag, contains no code. The "//@" lines are read
+// by /verif/govc.
+//
+// Ghost state: provided is the path returned by the most recent
+// Provider.Provide call; isyes[t] records that some errors.Is(_, t) call
+// answered true (trusted contract of errors.Is, externs/std.spec).
+
+//@ ghost provided string
+
+//@ iface Provider.Provide
+//@   params self, path, digest
+//@   modifies provided
+//@   ensures provided == result0
+
+//@ func (*transitioner).findAndMoveStagedFileIntoPlace
+//@   requires t != nil && target != nil
+//@   at call Provider.Provide assert[planned] arg0 == t.provider && arg1 == path && arg2 == target.Digest
+//@   at call filesystem.SetPermissionsByPath assert[staged] arg0 == provided
+//@   at call filesystem.Rename#1 assert[staged] arg0 == nil && arg1 == provided
+//@   at call filesystem.Rename#2 assert[staged] arg0 == parent && arg1 == temporaryName
+//@   at call os.Open assert[staged] arg0 == provided && nopen == old(nopen)
+// the cross-device copy reads the file opened from that path, and only that
+// path is removed afterwards
+//@   at call io.CopyBuffer assert[staged] arg1 == box(stagedFile) && stagedFile != nil && fopenidx(stagedFile) == old(nopen)
+//@   at call os.Remove assert[staged] arg0 == fname(stagedFile) && stagedFile != nil && fopenidx(stagedFile) == old(nopen)
+// creating the temporary file (pseudo-random name generation: unknown callees)
+// neither consults the provider nor probes for non-existence
+//@   at call (*Directory).CreateTemporaryFile assume isyes[fs.ErrNotExist] == old(isyes[fs.ErrNotExist]) && t.providerMissingFiles == old(t.providerMissingFiles)
+//@   ensures[missing] isyes[fs.ErrNotExist] && !old(isyes[fs.ErrNotExist]) ==> t.providerMissingFiles && result != nil
+//@   ensures[kept] old(t.providerMissingFiles) ==> t.providerMissingFiles
